@@ -275,6 +275,8 @@ Definition enabled_change (cfg : ocfg) (fn : N) (hdrs : list whdr) (s s' : ostat
   s_enabled s' = s_enabled s \/
   (o_unsol cfg = true /\ (fn = 20 \/ fn = 21) /\ s_enabled s' = set_classes (fn =? 20) hdrs (s_enabled s)).
 
+Ltac spl := split; [|split; [|split; [|split]]].
+
 Lemma handle_non_read_spec : forall cfg s fn seq fid bytes hdrs s' r o,
   handle_non_read cfg s fn seq fid bytes hdrs = (s', r, o) ->
   gview s' = gview s /\ Forall exob o /\
@@ -287,11 +289,10 @@ Proof.
   assert (Hin : gview s' = gview s /\ Forall exob o /\
                 (forall x, r1 = Some x -> req_resp seq x) /\ (r1 = None -> noresp_fn fn) /\
                 enabled_change cfg fn hdrs s s').
-  2:{ destruct Hin as (Hg & Ho & Hr & Hn & He). repeat split; auto.
+  2:{ destruct Hin as (Hg & Ho & Hr & Hn & He). spl; auto.
       - intros x Hx. destruct r1 as [r1|]; [|discriminate]. inversion Hx; subst.
         destruct (Hr r1 eq_refl) as [Hf Hc]. split; [exact Hf|exact Hc].
       - intros Hx. destruct r1; [discriminate|]. auto. }
-  clear r.
   assert (Hfr : forall s0, frame s s0 -> gview s0 = gview s /\ enabled_change cfg fn hdrs s s0).
   { intros s0 Hf. apply frame_gview in Hf. destruct Hf as [Hg He]. split; [exact Hg|left; exact He]. }
   assert (Hsome : forall x v, Some (empty_solicited seq v) = Some x -> req_resp seq x).
@@ -299,68 +300,432 @@ Proof.
   destruct (fn =? fn_write) eqn:E1.
   { destruct (handle_write_headers cfg s hdrs) as [[s2 v] o2] eqn:E2. inv_pair E.
     destruct (Hfr _ (handle_write_headers_frame _ _ _ _ _ _ E2)) as [Hg He].
-    repeat split; eauto using handle_write_headers_out. discriminate. }
+    spl; eauto using handle_write_headers_out. discriminate. }
   destruct (fn =? fn_delay_measure) eqn:E2.
-  { inv_pair E. repeat split; try constructor; try discriminate; try reflexivity.
+  { inv_pair E. destruct (Hfr s (frame_refl _)) as [Hg He].
+    spl; [reflexivity|constructor| |discriminate|left; reflexivity].
     intros x Hx. inversion Hx; subst. split; reflexivity. }
   destruct (fn =? fn_record_time) eqn:E3.
-  { inv_pair E. repeat split; try constructor; try discriminate; try reflexivity; eauto. }
+  { inv_pair E. spl; [reflexivity|constructor|eauto|discriminate|left; reflexivity]. }
   destruct (fn =? fn_cold_restart) eqn:E4.
   { destruct (restart_response seq s (o_cold cfg)) as [s2 r2] eqn:Er. inv_pair E.
     destruct (Hfr _ (restart_response_frame _ _ _ _ _ Er)) as [Hg He].
-    repeat split; auto; try discriminate; [fa_tac|].
+    spl; [exact Hg|fa_tac| |discriminate|exact He].
     intros x Hx. inversion Hx; subst. eapply restart_response_resp; eauto. }
   destruct (fn =? fn_warm_restart) eqn:E5.
   { destruct (restart_response seq s (o_warm cfg)) as [s2 r2] eqn:Er. inv_pair E.
     destruct (Hfr _ (restart_response_frame _ _ _ _ _ Er)) as [Hg He].
-    repeat split; auto; try discriminate; [fa_tac|].
+    spl; [exact Hg|fa_tac| |discriminate|exact He].
     intros x Hx. inversion Hx; subst. eapply restart_response_resp; eauto. }
   destruct ((fn =? fn_select) || (fn =? fn_operate) || (fn =? fn_direct_operate) || (fn =? fn_direct_operate_nr)) eqn:E6.
   { destruct (Hfr _ (handle_controls_frame _ _ _ _ _ _ _ _ _ _ E)) as [Hg He].
     destruct (handle_controls_out _ _ _ _ _ _ _ _ _ _ E) as (Ho & Hr & Hn).
-    repeat split; auto. intros Hx. left. auto. }
+    spl; auto. intros Hx. left. auto. }
   destruct (fn =? fn_immediate_freeze) eqn:E7.
   { destruct (handle_freeze cfg 0 hdrs) as [v o2] eqn:Ef. inv_pair E.
     destruct (Hfr s' (frame_refl _)) as [Hg He].
-    repeat split; eauto using handle_freeze_out. discriminate. }
+    spl; eauto using handle_freeze_out. discriminate. }
   destruct (fn =? fn_immediate_freeze_nr) eqn:E8.
   { destruct (handle_freeze cfg 0 hdrs) as [v o2] eqn:Ef. inv_pair E.
     destruct (Hfr s' (frame_refl _)) as [Hg He]. apply N.eqb_eq in E8.
-    repeat split; eauto using handle_freeze_out; try discriminate. intros _. right; left. exact E8. }
+    spl; eauto using handle_freeze_out; try discriminate. intros _. right; left. exact E8. }
   destruct (fn =? fn_freeze_clear) eqn:E9.
   { destruct (handle_freeze cfg 1 hdrs) as [v o2] eqn:Ef. inv_pair E.
     destruct (Hfr s' (frame_refl _)) as [Hg He].
-    repeat split; eauto using handle_freeze_out. discriminate. }
+    spl; eauto using handle_freeze_out. discriminate. }
   destruct (fn =? fn_freeze_clear_nr) eqn:E10.
   { destruct (handle_freeze cfg 1 hdrs) as [v o2] eqn:Ef. inv_pair E.
     destruct (Hfr s' (frame_refl _)) as [Hg He]. apply N.eqb_eq in E10.
-    repeat split; eauto using handle_freeze_out; try discriminate. intros _. right; right; left. exact E10. }
+    spl; eauto using handle_freeze_out; try discriminate. intros _. right; right; left. exact E10. }
   destruct (fn =? fn_freeze_at_time) eqn:E11.
   { destruct (handle_freeze_at_time cfg None hdrs) as [v o2] eqn:Ef. inv_pair E.
     destruct (Hfr s' (frame_refl _)) as [Hg He].
-    repeat split; eauto using handle_freeze_at_time_out. discriminate. }
+    spl; eauto using handle_freeze_at_time_out. discriminate. }
   destruct (fn =? fn_freeze_at_time_nr) eqn:E12.
   { destruct (handle_freeze_at_time cfg None hdrs) as [v o2] eqn:Ef. inv_pair E.
     destruct (Hfr s' (frame_refl _)) as [Hg He]. apply N.eqb_eq in E12.
-    repeat split; eauto using handle_freeze_at_time_out; try discriminate. intros _. right; right; right. exact E12. }
+    spl; eauto using handle_freeze_at_time_out; try discriminate. intros _. right; right; right. exact E12. }
+  assert (Hed : forall en s2 r2 x, enable_disable cfg s en seq hdrs = (s2, r2) -> Some r2 = Some x -> req_resp seq x).
+  { intros en s2 r2 x Ee' Hx. inversion Hx; subst. unfold enable_disable in Ee'.
+    destruct (negb (o_unsol cfg)); [inv_pair Ee'; apply req_resp_empty|].
+    destruct (fold_left _ hdrs (s_enabled s, 0)) as [e v]. inv_pair Ee'. apply req_resp_empty. }
   destruct (fn =? fn_enable_unsol) eqn:E13.
   { destruct (enable_disable cfg s true seq hdrs) as [s2 r2] eqn:Ee. inv_pair E.
     pose proof Ee as Ee'. apply enable_disable_spec in Ee. destruct Ee as [Hg He].
     apply N.eqb_eq in E13. subst fn.
-    repeat split; auto; try constructor; try discriminate.
-    - intros x Hx. inversion Hx; subst. unfold enable_disable in Ee'.
-      destruct (negb (o_unsol cfg)); [inv_pair Ee'; apply req_resp_empty|].
-      destruct (fold_left _ hdrs (s_enabled s, 0)) as [e v]. inv_pair Ee'. apply req_resp_empty.
-    - destruct (o_unsol cfg) eqn:Eu; [right|left; exact He]. repeat split; auto. }
+    spl; [exact Hg|constructor|intros x Hx; eapply Hed; eauto|discriminate|].
+    destruct (o_unsol cfg) eqn:Eu; [right|left; exact He]. split; [exact Eu|]. split; [left; reflexivity|exact He]. }
   destruct (fn =? fn_disable_unsol) eqn:E14.
   { destruct (enable_disable cfg s false seq hdrs) as [s2 r2] eqn:Ee. inv_pair E.
     pose proof Ee as Ee'. apply enable_disable_spec in Ee. destruct Ee as [Hg He].
     apply N.eqb_eq in E14. subst fn.
-    repeat split; auto; try constructor; try discriminate.
-    - intros x Hx. inversion Hx; subst. unfold enable_disable in Ee'.
-      destruct (negb (o_unsol cfg)); [inv_pair Ee'; apply req_resp_empty|].
-      destruct (fold_left _ hdrs (s_enabled s, 0)) as [e v]. inv_pair Ee'. apply req_resp_empty.
-    - destruct (o_unsol cfg) eqn:Eu; [right|left; exact He]. repeat split; auto. }
+    spl; [exact Hg|constructor|intros x Hx; eapply Hed; eauto|discriminate|].
+    destruct (o_unsol cfg) eqn:Eu; [right|left; exact He]. split; [exact Eu|]. split; [right; reflexivity|exact He]. }
   inv_pair E. destruct (Hfr s' (frame_refl _)) as [Hg He].
-  repeat split; eauto; try constructor; try discriminate.
+  spl; [exact Hg|constructor|eauto|discriminate|exact He].
+Qed.
+
+(* ---------- READ responses, broadcast, error responses --------------------------------------------- *)
+
+Lemma ctl_seq_ctl_byte : forall a b c d q, ctl_seq (ctl_byte a b c d q) = q mod 16.
+Proof. intros a b c d q. unfold ctl_seq, ctl_byte. destruct a, b, c, d; lia. Qed.
+
+Definition dbq (o : oobs) : Prop :=
+  match o with ODb DbSelect | ODb DbWrite | ODb DbEvinfo | OMissingAnswer => True | _ => False end.
+
+Lemma dbq_solob : forall o, dbq o -> solob o.
+Proof. intros [] H; try destruct H; try exact I. destruct c; try destruct H; exact I. Qed.
+
+Lemma evq_dbq : forall o, evq o -> dbq o.
+Proof. intros o [H|H]; subst; exact I. Qed.
+
+Lemma format_read_response_spec : forall s fir seq iin2 s' r se o,
+  format_read_response s fir seq iin2 = (s', r, se, o) ->
+  frame s s' /\ r_fn r = 129 /\ ctl_seq (r_ctl r) = seq mod 16 /\ Forall dbq o /\
+  (forall x, se = Some x -> se_ecsn x = seq).
+Proof.
+  intros s fir seq iin2 s' r se o H. unfold format_read_response in H.
+  destruct (ask_write s) as [[s1 [[complete has_events] body]] o1] eqn:E.
+  pose proof (ask_write_frame _ _ _ _ E) as Hf. inv_pair H.
+  split; [eapply frame_trans; [exact Hf|reflexivity]|].
+  split; [reflexivity|]. split; [apply ctl_seq_ctl_byte|]. split.
+  - unfold ask_write in E. destruct (s_answers s) as [|[] rest]; inv_pair E; fa_tac.
+  - intros x Hx. destruct (has_events || negb complete); inversion Hx; subst. reflexivity.
+Qed.
+
+Lemma ask_iin2_out : forall s c s' v o, ask_iin2 s c = (s', v, o) ->
+  o = [ODb c] \/ o = [ODb c; OMissingAnswer].
+Proof.
+  intros s c s' v o H. unfold ask_iin2 in H.
+  destruct (s_answers s) as [|[] rest]; inv_pair H; auto.
+Qed.
+
+Lemma format_first_read_response_spec : forall s seq s' r se o,
+  format_first_read_response s seq = (s', r, se, o) ->
+  frame s s' /\ r_fn r = 129 /\ ctl_seq (r_ctl r) = seq mod 16 /\ Forall dbq o.
+Proof.
+  intros s seq s' r se o H. unfold format_first_read_response in H.
+  destruct (ask_iin2 s DbSelect) as [[s1 iin2] o1] eqn:E1.
+  destruct (format_read_response s1 true seq iin2) as [[[s2 r2] se2] o2] eqn:E2.
+  inv_pair H. apply format_read_response_spec in E2. destruct E2 as (Hf & Hr & Hc & Ho & _).
+  split; [eapply frame_trans; [eapply ask_iin2_frame; eauto|exact Hf]|].
+  split; [exact Hr|]. split; [exact Hc|].
+  apply Forall_app; split; [|exact Ho].
+  destruct (ask_iin2_out _ _ _ _ _ E1) as [-> | ->]; fa_tac.
+Qed.
+
+Lemma process_broadcast_spec : forall cfg s m fid ctl fn bytes obj s' o,
+  process_broadcast cfg s m fid ctl fn bytes obj = (s', o) ->
+  gview s' = gview s /\ Forall solob o /\
+  (s_enabled s' = s_enabled s \/
+   exists hdrs rh, obj = ObjOk hdrs rh /\ o_broadcast cfg = true /\
+                   enabled_change cfg fn hdrs s s').
+Proof.
+  intros cfg s m fid ctl fn bytes obj s' o H. unfold process_broadcast in H.
+  assert (H0 : gview (upd_last_bcast s (Some m)) = gview s) by reflexivity.
+  assert (He0 : s_enabled (upd_last_bcast s (Some m)) = s_enabled s) by reflexivity.
+  set (s0 := upd_last_bcast s (Some m)) in *.
+  assert (Hfr : forall s1, frame s0 s1 -> gview s1 = gview s /\ s_enabled s1 = s_enabled s).
+  { intros s1 Hf. apply frame_gview in Hf. destruct Hf as [Hg He]. split; congruence. }
+  destruct (negb (o_broadcast cfg)) eqn:Eb.
+  { inv_pair H. split; [exact H0|]. split; [fa_tac|left; exact He0]. }
+  destruct obj as [iin2|hdrs rh].
+  { inv_pair H. split; [exact H0|]. split; [fa_tac|left; exact He0]. }
+  cbv zeta in H.
+  assert (Hdone : forall o1, Forall exob o1 -> Forall solob (o1 ++ [OInfo (IBroadcast fn 0 0)])).
+  { intros o1 Ho1. apply Forall_app; split; [eapply Forall_imp; [apply exob_solob|exact Ho1]|fa_tac]. }
+  destruct (fn =? fn_write).
+  { destruct (handle_write_headers cfg s0 hdrs) as [[s1 v] o1] eqn:E. inv_pair H.
+    destruct (Hfr _ (handle_write_headers_frame _ _ _ _ _ _ E)) as [Hg He].
+    split; [exact Hg|]. split; [apply Hdone; eapply handle_write_headers_out; eauto|left; exact He]. }
+  destruct (fn =? fn_direct_operate_nr).
+  { destruct (handle_controls cfg s0 fn (ctl_seq ctl) fid bytes hdrs) as [[s1 r1] o1] eqn:E. inv_pair H.
+    destruct (Hfr _ (handle_controls_frame _ _ _ _ _ _ _ _ _ _ E)) as [Hg He].
+    destruct (handle_controls_out _ _ _ _ _ _ _ _ _ _ E) as (Ho & _).
+    split; [exact Hg|]. split; [apply Hdone; exact Ho|left; exact He]. }
+  destruct (fn =? fn_immediate_freeze_nr).
+  { destruct (handle_freeze cfg 0 hdrs) as [v o1] eqn:E. inv_pair H.
+    split; [exact H0|]. split; [apply Hdone; eapply handle_freeze_out; eauto|left; exact He0]. }
+  destruct (fn =? fn_freeze_clear_nr).
+  { destruct (handle_freeze cfg 1 hdrs) as [v o1] eqn:E. inv_pair H.
+    split; [exact H0|]. split; [apply Hdone; eapply handle_freeze_out; eauto|left; exact He0]. }
+  destruct (fn =? fn_freeze_at_time_nr).
+  { destruct (handle_freeze_at_time cfg None hdrs) as [v o1] eqn:E. inv_pair H.
+    split; [exact H0|]. split; [apply Hdone; eapply handle_freeze_at_time_out; eauto|left; exact He0]. }
+  destruct (fn =? fn_record_time).
+  { inv_pair H. split; [reflexivity|]. split; [apply (Hdone []); constructor|left; reflexivity]. }
+  assert (Hb : o_broadcast cfg = true) by (destruct (o_broadcast cfg); [reflexivity|discriminate]).
+  destruct (fn =? fn_disable_unsol) eqn:E21.
+  { destruct (enable_disable cfg s0 false (ctl_seq ctl) hdrs) as [s1 r1] eqn:E. inv_pair H.
+    apply enable_disable_spec in E. destruct E as [Hg He]. apply N.eqb_eq in E21. subst fn.
+    split; [congruence|]. split; [apply (Hdone []); constructor|].
+    right. exists hdrs, rh. split; [reflexivity|]. split; [exact Hb|].
+    unfold enabled_change. destruct (o_unsol cfg) eqn:Eu; [right|left; congruence].
+    split; [first [exact Eu|reflexivity]|]. split; [right; reflexivity|]. rewrite He, He0. reflexivity. }
+  destruct (fn =? fn_enable_unsol) eqn:E20.
+  { destruct (enable_disable cfg s0 true (ctl_seq ctl) hdrs) as [s1 r1] eqn:E. inv_pair H.
+    apply enable_disable_spec in E. destruct E as [Hg He]. apply N.eqb_eq in E20. subst fn.
+    split; [congruence|]. split; [apply (Hdone []); constructor|].
+    right. exists hdrs, rh. split; [reflexivity|]. split; [exact Hb|].
+    unfold enabled_change. destruct (o_unsol cfg) eqn:Eu; [right|left; congruence].
+    split; [first [exact Eu|reflexivity]|]. split; [left; reflexivity|]. rewrite He, He0. reflexivity. }
+  inv_pair H. split; [exact H0|]. split; [fa_tac|left; exact He0].
+Qed.
+
+Lemma write_error_response_spec : forall s from bc seq s' o,
+  write_error_response s from bc seq = (s', o) -> frame s s' /\ Forall solob o.
+Proof.
+  intros s from bc seq s' o H. unfold write_error_response in H.
+  destruct bc as [m|]; [inv_pair H; split; [reflexivity|constructor]|].
+  destruct seq as [q|]; [|inv_pair H; split; [reflexivity|constructor]].
+  destruct (write_solicited s from (empty_solicited q iin2_no_func)) as [[s1 r1] o1] eqn:E.
+  inv_pair H. split; [eapply write_solicited_frame; eauto|].
+  eapply write_solicited_out; eauto.
+Qed.
+
+(* ---------- classification ---------------------------------------------------------------------- *)
+
+Lemma to_treq_request : forall cfg from d ctl fn obj,
+  to_treq cfg from d = TqRequest ctl fn obj -> d = DOk ctl fn RvOk obj.
+Proof.
+  intros cfg from d ctl fn obj H. unfold to_treq in H.
+  destruct (_ && _); [discriminate|].
+  destruct d as [|q c|c f rv ob]; try discriminate. destruct rv; [|discriminate].
+  inversion H; subst. reflexivity.
+Qed.
+
+Definition last_response (s : ostate) : option response :=
+  match s_last s with Some l => lr_response l | None => None end.
+
+Lemma classify_cases : forall s bc bytes ctl fn obj,
+  match classify s bc bytes ctl fn obj with
+  | FtMalformed iin2 => bc = None /\ obj = ObjErr iin2 /\ fn <> 0
+  | FtNewRead hdrs rh => bc = None /\ obj = ObjOk hdrs rh /\ fn = 1
+  | FtRepeatRead resp hdrs rh => bc = None /\ obj = ObjOk hdrs rh /\ fn = 1 /\ resp = last_response s
+  | FtNewNonRead hdrs => bc = None /\ (exists rh, obj = ObjOk hdrs rh) /\ fn <> 1 /\ fn <> 0
+  | FtRepeatNonRead resp => bc = None /\ resp = last_response s /\ fn <> 1 /\ fn <> 0
+  | FtBroadcast m => bc = Some m
+  | FtSolConfirm q => bc = None /\ fn = 0 /\ q = ctl_seq ctl /\ ctl_uns ctl = false
+  | FtUnsolConfirm q => bc = None /\ fn = 0 /\ q = ctl_seq ctl /\ ctl_uns ctl = true
+  end.
+Proof.
+  intros s bc bytes ctl fn obj. unfold classify.
+  destruct bc as [m|]; [reflexivity|].
+  destruct (fn =? fn_confirm) eqn:E0.
+  { apply N.eqb_eq in E0. destruct (ctl_uns ctl) eqn:Eu; repeat split; auto. }
+  apply N.eqb_neq in E0.
+  destruct obj as [iin2|hdrs rh]; [repeat split; auto|].
+  destruct (match s_last s with Some l => _ | None => false end).
+  - destruct (fn =? fn_read) eqn:E1.
+    + apply N.eqb_eq in E1. repeat split; auto.
+    + apply N.eqb_neq in E1. repeat split; auto.
+  - destruct (fn =? fn_read) eqn:E1.
+    + apply N.eqb_eq in E1. repeat split; auto.
+    + apply N.eqb_neq in E1. repeat split; eauto.
+Qed.
+
+Definition last_ok (s : ostate) : Prop :=
+  forall l r, s_last s = Some l -> lr_response l = Some r -> r_fn r = 129.
+
+Lemma last_ok_response : forall s r, last_ok s -> last_response s = Some r -> r_fn r = 129.
+Proof.
+  intros s r H Hl. unfold last_response in Hl. destruct (s_last s) as [l|] eqn:E; [|discriminate].
+  eapply H; eauto.
+Qed.
+
+Lemma last_ok_mk : forall s seq bytes r se,
+  (forall x, r = Some x -> r_fn x = 129) -> last_ok (upd_last s (mk_last seq bytes r se)).
+Proof.
+  intros s seq bytes r se H l x Hl Hx. cbn in Hl. inversion Hl; subst. cbn in Hx. auto.
+Qed.
+
+(* ---------- handle_one_request_from_idle ------------------------------------------------------------- *)
+
+Definition add_con_series (se : option series) (r : response) : option series :=
+  match se with
+  | None => if ctl_con (r_ctl r) then Some {| se_ecsn := ctl_seq (r_ctl r); se_fin := true |} else None
+  | x => x
+  end.
+
+(* the local `finish` of handle_from_idle *)
+Definition hfi_finish (cfg : ocfg) (from fn seq : N) (bytes : list N)
+           (s1 : ostate) (resp : option response) (se : option series) (repeat : bool) (o1 : list oobs)
+  : ostate * list oobs :=
+  let o0 := [OInfo (IIdleRequest fn seq)] in
+  match resp with
+  | Some r =>
+      if repeat then
+        let o2 := repeat_solicited s1 from r in
+        let se' := add_con_series se r in
+        let s2 := upd_last s1 (mk_last seq bytes (Some r) se') in
+        match se' with
+        | Some x => (upd_control s2 (CSolWait x (confirm_deadline cfg s2) RStep2), o0 ++ o1 ++ o2 ++ [OInfo (IEnterSolWait (se_ecsn x))])
+        | None => (s2, o0 ++ o1 ++ o2)
+        end
+      else
+        let '(s2, r', o2) := write_solicited s1 from r in
+        let se' := add_con_series se r' in
+        let s3 := upd_last s2 (mk_last seq bytes (Some r') se') in
+        match se' with
+        | Some x => (upd_control s3 (CSolWait x (confirm_deadline cfg s3) RStep2), o0 ++ o1 ++ o2 ++ [OInfo (IEnterSolWait (se_ecsn x))])
+        | None => (s3, o0 ++ o1 ++ o2)
+        end
+  | None => (upd_last s1 (mk_last seq bytes None se), o0 ++ o1)
+  end.
+
+Lemma handle_from_idle_eq : forall cfg s from bc bytes d fid,
+  handle_from_idle cfg s from bc bytes d fid =
+  match to_treq cfg from d with
+  | TqNone => (s, [])
+  | TqError seq => write_error_response s from bc seq
+  | TqRequest ctl fn obj =>
+      let seq := ctl_seq ctl in
+      let o0 := [OInfo (IIdleRequest fn seq)] in
+      let finish := hfi_finish cfg from fn seq bytes in
+      match classify s bc bytes ctl fn obj with
+      | FtMalformed iin2 => finish s (Some (empty_solicited seq iin2)) None false []
+      | FtNewRead _ _ | FtRepeatRead _ _ _ =>
+          let '(s1, r, se, o1) := format_first_read_response s seq in finish s1 (Some r) se false o1
+      | FtNewNonRead hdrs =>
+          let '(s1, r, o1) := handle_non_read cfg s fn seq fid bytes hdrs in finish s1 r None false o1
+      | FtRepeatNonRead last =>
+          let s1 := match s_select s with
+                    | Some sel =>
+                        if (ss_frame_id sel + 1) mod 4294967296 =? fid
+                        then upd_select s (Some {| ss_seq := ss_seq sel; ss_frame_id := fid;
+                                                   ss_time := ss_time sel; ss_objects := ss_objects sel |})
+                        else s
+                    | None => s
+                    end in
+          finish s1 last None true []
+      | FtBroadcast m =>
+          let '(s1, o1) := process_broadcast cfg s m fid ctl fn bytes obj in (s1, o0 ++ o1)
+      | FtSolConfirm _ | FtUnsolConfirm _ => (s, o0)
+      end
+  end.
+Proof. reflexivity. Qed.
+
+Definition ctl_step_sol (s s' : ostate) : Prop :=
+  s_control s' = s_control s \/ exists x dl r, s_control s' = CSolWait x dl r.
+
+Lemma hfi_finish_spec : forall cfg from fn seq bytes s1 resp se repeat o1 s' o,
+  hfi_finish cfg from fn seq bytes s1 resp se repeat o1 = (s', o) ->
+  (forall r, resp = Some r -> r_fn r = 129) -> Forall solob o1 ->
+  uview s' = uview s1 /\ s_enabled s' = s_enabled s1 /\ ctl_step_sol s1 s' /\ Forall solob o /\ last_ok s'.
+Proof.
+  intros cfg from fn seq bytes s1 resp se repeat o1 s' o H Hr Ho1. unfold hfi_finish in H. cbv zeta in H.
+  assert (Hi : solob (OInfo (IIdleRequest fn seq))) by exact I.
+  destruct resp as [r|].
+  - specialize (Hr r eq_refl). destruct repeat.
+    + assert (Ho2 : Forall solob (repeat_solicited s1 from r)).
+      { unfold repeat_solicited. constructor; [|constructor]. cbn [solob]. rewrite nth1_response_bytes. exact Hr. }
+      destruct (add_con_series se r) as [x|]; inv_pair H.
+      * split; [reflexivity|]. split; [reflexivity|]. split; [right; do 3 eexists; reflexivity|]. split.
+        -- constructor; [exact Hi|]. fa_tac.
+        -- intros l x0 Hl Hx. cbn in Hl. inversion Hl; subst. cbn in Hx. inversion Hx; subst. exact Hr.
+      * split; [reflexivity|]. split; [reflexivity|]. split; [left; reflexivity|]. split.
+        -- constructor; [exact Hi|]. fa_tac.
+        -- apply last_ok_mk. intros x0 Hx. inversion Hx; subst. exact Hr.
+    + destruct (write_solicited s1 from r) as [[s2 r'] o2] eqn:E.
+      pose proof (write_solicited_frame _ _ _ _ _ _ E) as Hf. apply frame_gview in Hf.
+      destruct Hf as [Hg He]. unfold gview in Hg.
+      destruct (write_solicited_out _ _ _ _ _ _ E Hr) as [Ho2 Hr'].
+      destruct (add_con_series se r') as [x|]; inv_pair H.
+      * split; [transitivity (uview s2); [reflexivity|congruence]|]. split; [exact He|]. split; [right; do 3 eexists; reflexivity|]. split.
+        -- constructor; [exact Hi|]. fa_tac.
+        -- intros l x0 Hl Hx. cbn in Hl. inversion Hl; subst. cbn in Hx. inversion Hx; subst. exact Hr'.
+      * split; [transitivity (uview s2); [reflexivity|congruence]|]. split; [exact He|]. split; [left; transitivity (s_control s2); [reflexivity|congruence]|]. split.
+        -- constructor; [exact Hi|]. fa_tac.
+        -- apply last_ok_mk. intros x0 Hx. inversion Hx; subst. exact Hr'.
+  - inv_pair H. split; [reflexivity|]. split; [reflexivity|]. split; [left; reflexivity|]. split.
+    + constructor; [exact Hi|]. exact Ho1.
+    + apply last_ok_mk. discriminate.
+Qed.
+
+(* what a request does to the enabled classes *)
+Definition enable_req (cfg : ocfg) (d : digest) (s s' : ostate) : Prop :=
+  s_enabled s' = s_enabled s \/
+  exists ctl fn hdrs rh, d = DOk ctl fn RvOk (ObjOk hdrs rh) /\ o_unsol cfg = true /\ (fn = 20 \/ fn = 21) /\
+                         s_enabled s' = set_classes (fn =? 20) hdrs (s_enabled s).
+
+Lemma enabled_change_req : forall cfg ctl fn hdrs rh s s' s1,
+  enabled_change cfg fn hdrs s s1 -> s_enabled s' = s_enabled s1 ->
+  enable_req cfg (DOk ctl fn RvOk (ObjOk hdrs rh)) s s'.
+Proof.
+  intros cfg ctl fn hdrs rh s s' s1 [H|(Hu & Hf & He)] Hs.
+  - left. congruence.
+  - right. exists ctl, fn, hdrs, rh. repeat split; auto. congruence.
+Qed.
+
+Lemma handle_from_idle_spec : forall cfg s from bc bytes d fid s' o,
+  handle_from_idle cfg s from bc bytes d fid = (s', o) ->
+  uview s' = uview s /\ ctl_step_sol s s' /\ enable_req cfg d s s' /\
+  (last_ok s -> Forall solob o /\ last_ok s').
+Proof.
+  intros cfg s from bc bytes d fid s' o H. rewrite handle_from_idle_eq in H.
+  destruct (to_treq cfg from d) as [|q|ctl fn obj] eqn:Et.
+  - inv_pair H. split; [reflexivity|]. split; [left; reflexivity|]. split; [left; reflexivity|].
+    intros Hl. split; [constructor|exact Hl].
+  - apply write_error_response_spec in H. destruct H as [Hf Ho].
+    apply frame_gview in Hf. destruct Hf as [Hg He]. unfold gview in Hg.
+    split; [congruence|]. split; [left; congruence|]. split; [left; exact He|].
+    intros Hl. split; [exact Ho|]. intros l r Hs. apply Hl. congruence.
+  - apply to_treq_request in Et. subst d. cbv zeta in H.
+    pose proof (classify_cases s bc bytes ctl fn obj) as Hc.
+    assert (Hreads : (let '(s1, r, se, o1) := format_first_read_response s (ctl_seq ctl) in
+                      hfi_finish cfg from fn (ctl_seq ctl) bytes s1 (Some r) se false o1) = (s', o) ->
+            uview s' = uview s /\ ctl_step_sol s s' /\ s_enabled s' = s_enabled s /\ Forall solob o /\ last_ok s').
+    { intros H'. destruct (format_first_read_response s (ctl_seq ctl)) as [[[s1 r] se] o1] eqn:E.
+      apply format_first_read_response_spec in E. destruct E as (Hf & Hr & _ & Ho1).
+      apply frame_gview in Hf. destruct Hf as [Hg He]. unfold gview in Hg.
+      eapply hfi_finish_spec in H'.
+      - destruct H' as (Hu & He' & Hc' & Ho & Hl). split; [congruence|].
+        split; [destruct Hc' as [Hc'|Hc']; [left; congruence|right; exact Hc']|].
+        split; [congruence|]. split; assumption.
+      - intros x Hx. inversion Hx; subst. exact Hr.
+      - eapply Forall_imp; [apply dbq_solob|exact Ho1]. }
+    destruct (classify s bc bytes ctl fn obj) as [iin2|hdrs rh|resp hdrs rh|hdrs|resp|m|q|q].
+    + eapply hfi_finish_spec in H; [|intros x Hx; inversion Hx; subst; reflexivity|constructor].
+      destruct H as (Hu & He & Hc' & Ho & Hl).
+      split; [exact Hu|]. split; [exact Hc'|]. split; [left; exact He|]. intros _. split; assumption.
+    + apply Hreads in H. destruct H as (Hu & Hc' & He & Ho & Hl).
+      split; [exact Hu|]. split; [exact Hc'|]. split; [left; exact He|]. intros _. split; assumption.
+    + apply Hreads in H. destruct H as (Hu & Hc' & He & Ho & Hl).
+      split; [exact Hu|]. split; [exact Hc'|]. split; [left; exact He|]. intros _. split; assumption.
+    + destruct (handle_non_read cfg s fn (ctl_seq ctl) fid bytes hdrs) as [[s1 r] o1] eqn:E.
+      apply handle_non_read_spec in E. destruct E as (Hg & Ho1 & Hr & _ & Hen). unfold gview in Hg.
+      eapply hfi_finish_spec in H.
+      * destruct H as (Hu & He & Hc' & Ho & Hl). split; [congruence|].
+        split; [destruct Hc' as [Hc'|Hc']; [left; congruence|right; exact Hc']|].
+        destruct Hc as (_ & [rh ->] & _).
+        split; [eapply enabled_change_req; eauto|]. intros _. split; assumption.
+      * intros x Hx. apply Hr in Hx. apply Hx.
+      * eapply Forall_imp; [apply exob_solob|exact Ho1].
+    + destruct Hc as (_ & -> & _). cbv zeta in H. clear Hreads.
+      set (s1 := match s_select s with Some sel => _ | None => s end) in H.
+      assert (Hs1 : uview s1 = uview s /\ s_control s1 = s_control s /\ s_enabled s1 = s_enabled s).
+      { subst s1. destruct (s_select s); [destruct (_ =? _)|]; repeat split. }
+      destruct Hs1 as (Hu1 & Hc1 & He1).
+      split; [|split; [|split]].
+      4:{ intros Hl. eapply hfi_finish_spec in H; [|intros x Hx; eapply last_ok_response; eauto|constructor].
+          destruct H as (_ & _ & _ & Ho & Hl'). split; assumption. }
+      all: destruct (last_response s) as [r|] eqn:El.
+      all: unfold hfi_finish in H; cbv zeta in H.
+      all: try (destruct (add_con_series None r) as [x|]; inv_pair H).
+      all: try (inv_pair H).
+      all: try (cbn; congruence).
+      all: try (left; cbn; congruence).
+      all: try (right; do 3 eexists; reflexivity).
+      all: exact Hu1.
+    + destruct (process_broadcast cfg s m fid ctl fn bytes obj) as [s1 o1] eqn:E. inv_pair H.
+      apply process_broadcast_spec in E. destruct E as (Hg & Ho1 & Hen). unfold gview in Hg.
+      split; [congruence|]. split; [left; congruence|]. split.
+      * destruct Hen as [Hen|(hdrs & rh & -> & _ & Hen)]; [left; exact Hen|].
+        eapply enabled_change_req; eauto.
+      * intros Hl. split; [constructor; [exact I|exact Ho1]|].
+        intros l r Hs. apply Hl. congruence.
+    + inv_pair H. split; [reflexivity|]. split; [left; reflexivity|]. split; [left; reflexivity|].
+      intros Hl. split; [fa_tac|exact Hl].
+    + inv_pair H. split; [reflexivity|]. split; [left; reflexivity|]. split; [left; reflexivity|].
+      intros Hl. split; [fa_tac|exact Hl].
 Qed.
